@@ -156,7 +156,9 @@ def calculate_time_slot(
 
     time_slot_size = service_interval / total_runners
     runner_start_time = runner_position * time_slot_size
-    runner_end_time = runner_start_time + time_slot_size - spread_margin
+    # The end is derived from the next runner's start, (position + 1) * slot, so that after
+    # float rounding a window never reaches past the start of the following one
+    runner_end_time = (runner_position + 1) * time_slot_size - spread_margin
 
     # Ensure the window is valid
     if runner_end_time <= runner_start_time:
